@@ -67,7 +67,8 @@ def jcmd (c : Cmd) : Json :=
 def jcall (c : Call) : Json :=
   Json.mkObj [("name", Json.str c.name), ("args", jarr (c.args.map fun a => jarr (a.map jnum))),
     ("modes", natList c.modes), ("sel", jsel c.sel),
-    ("opts", jarr (c.opts.map fun kv => jarr [Json.str kv.1, jint kv.2]))]
+    ("opts", jarr (c.opts.map fun kv => jarr [Json.str kv.1, jint kv.2])),
+    ("shots", match c.shots with | none => Json.null | some n => jnat n)]
 
 def asRegs (j : Json) : R (List (Nat × Bool)) := do
   let a ← j.getArr?
@@ -86,7 +87,8 @@ def asProg (j : Json) : R Prog := do
     | .error _ => pure []
   pure { name := (getStr j "name").toOption.getD "", initN := ← getNat j "initN",
          initRegs := ← asRegs (← j.getObjVal? "initRegs"), regs := ← asRegs (← j.getObjVal? "regs"),
-         circuit := circ, freeNames := names }
+         circuit := circ, freeNames := names,
+         shots := match getNat j "shots" with | .ok n => some n | .error _ => none }
 
 def asOpts (j : Json) : R (List (String × Int)) := do
   let a ← j.getArr?
@@ -116,18 +118,20 @@ def jval : Option Val → Json
 def jeng (e : Eng) : Json :=
   Json.mkObj [("prev", match e.prev with | none => Json.null | some r => jregs r),
     ("runIds", natList e.runIds),
-    ("samples", match e.samples with | none => Json.null | some r => jarr (r.map jrat)),
+    ("samples", match e.samples with | none => Json.null | some r => jarr (r.map fun row => jarr (row.map jrat))),
     ("mpos", jnat e.mpos), ("opts", jarr (e.opts.map fun kv => jarr [Json.str kv.1, jint kv.2]))]
 
 /-- run a script of `run` / `reset` actions; stops at the first error -/
-def session (cp : Compiler) (progs : Nat → Prog) (outc : Nat → List Rat) (args : List (String × Rat)) :
+def session (cp : Compiler) (progs : Nat → Prog) (outc : Nat → List (List Rat)) (args : List (String × Rat)) :
     List Json → Eng → World → List Json → R (List Json × Eng × World)
   | [], e, w, acc => pure (acc.reverse, e, w)
   | a :: rest, e, w, acc =>
     match a.getObjVal? "run" with
     | .ok ids => do
       let ids ← asNatList ids
-      match run cp progs outc args e w ids with
+      let shots := match getNat a "shots" with | .ok n => some n | .error _ => none
+      let modes := match getNatList a "modes" with | .ok l => some l | .error _ => none
+      match run cp progs outc args { shots := shots, modes := modes } e w ids with
       | .error err => pure ((Json.mkObj [("err", Json.str (errStr err))] :: acc).reverse, e, w)
       | .ok (e1, w1, t) => session cp progs outc args rest e1 w1 (Json.mkObj [("calls", jarr (t.map jcall))] :: acc)
     | .error _ =>
@@ -173,8 +177,10 @@ def handler (op : String) (j : Json) : Option (R Json) :=
     let cp ← asCompiler (← j.getObjVal? "compiler")
     let pl ← (← getArr j "progs").mapM asProg
     let progs : Nat → Prog := fun i => pl.getD i { initN := 0, initRegs := [], regs := [], circuit := [] }
-    let ol ← (← getArr j "outcomes").mapM asRatList
-    let outc : Nat → List Rat := fun k => ol.getD k []
+    let ol ← (← getArr j "outcomes").mapM fun x => do
+      let a ← x.getArr?
+      a.toList.mapM asRatList
+    let outc : Nat → List (List Rat) := fun k => ol.getD k []
     let args ← match getArr j "args" with
       | .ok a => a.mapM fun x => do
           let p ← x.getArr?
